@@ -13,6 +13,16 @@ repo = os.environ.get("VERIF_REPO", "/repo")
 if sys.path[0] != repo:
     sys.path.insert(0, repo)
 
+try:  # the server and its pool children die with the harness process that started them
+    import ctypes
+    import signal
+
+    _libc = ctypes.CDLL("libc.so.6", use_errno=True)
+    _libc.prctl(1, signal.SIGKILL)
+    os.register_at_fork(after_in_child=lambda: _libc.prctl(1, signal.SIGKILL))
+except Exception:
+    pass
+
 cfg = os.environ.get("FORTLS_VERIF")
 if cfg:
     cfg = json.loads(cfg)
